@@ -37,7 +37,7 @@ type projCase struct {
 		Commitments bool      `json:"commitments"`
 		Origin      bool      `json:"origin"`
 		VersionID   bool      `json:"versionId"`
-		UpdatedTime bool      `json:"updatedTime"`
+		UpdatedTime string    `json:"updatedTime"`
 	} `json:"c"`
 	Out projOut `json:"out"`
 }
@@ -172,8 +172,13 @@ func runProjection(cs *projCase) (projOut, error) {
 	if cs.C.VersionID {
 		rm.VersionID = "ref-version"
 	}
-	if cs.C.UpdatedTime {
+	updated := int64(1700000500)
+	switch cs.C.UpdatedTime {
+	case "later":
 		rm.UpdatedTime = 1700000500
+	case "same": // an update anchored in the same block as the create
+		rm.UpdatedTime = 1700000000
+		updated = 1700000000
 	}
 	var info protocol.TransformationInfo
 	if cs.C.Published {
@@ -311,7 +316,7 @@ func runProjection(cs *projCase) (projOut, error) {
 	out.Meta.HasEquivalentID = eq(full.Meta, "equivalentId", []interface{}{"did:sidetree:canon:" + projSuffix, "did:sidetree:eq1:" + projSuffix})
 	out.Meta.HasCreated = eq(full.Meta, "created", time.Unix(1700000000, 0).UTC().Format(time.RFC3339))
 	out.Meta.HasVersionID = eq(full.Meta, "versionId", "ref-version")
-	out.Meta.HasUpdated = eq(full.Meta, "updated", time.Unix(1700000500, 0).UTC().Format(time.RFC3339))
+	out.Meta.HasUpdated = eq(full.Meta, "updated", time.Unix(updated, 0).UTC().Format(time.RFC3339))
 	return out, nil
 }
 
